@@ -421,6 +421,10 @@ py::object PyTreeSpec::ToPickleable() const {
                         PyTreeTypeRegistry::Lookup<NONE_IS_NODE>(t[4], registry_namespace);
                 }
             }
+            if (node.custom != nullptr && node.custom->kind != PyTreeKind::Custom) [[unlikely]] {
+                // A built-in type has a registration too, but no flatten / unflatten functions.
+                throw std::runtime_error("Malformed pickled PyTreeSpec.");
+            }
             if (node.custom == nullptr) [[unlikely]] {
                 std::ostringstream oss{};
                 oss << "Unknown custom type in pickled PyTreeSpec: " << PyRepr(t[4]);
